@@ -9,6 +9,7 @@ import OcVerif.Driver.Timeouts
 import OcVerif.Driver.RtWait
 import OcVerif.Driver.RtLoop
 import OcVerif.Driver.RtWake
+import OcVerif.Driver.RtCancel
 import OcVerif.Driver.Co
 import OcVerif.Driver.Local
 import OcVerif.Driver.Beans
@@ -46,6 +47,7 @@ def dispatch (comp : String) : Option (String → String → Verdict) :=
   | "rtwait" => some Driver.RtWait.drive
   | "rtloop" => some Driver.RtLoop.drive
   | "rtwake" => some Driver.RtWake.drive
+  | "rtcancel" => some Driver.RtCancel.drive
   | "co" => some Driver.Co.drive
   | "local" => some Driver.Local.drive
   | "beans" => some Driver.Beans.drive
